@@ -52,9 +52,9 @@ func runFoldClosure(w *fw.W, syms []string, fl int, maxStates, maxDepth int) (cu
 	md := refMode(fl)
 	prev := runtime.GOMAXPROCS(16)
 	defer runtime.GOMAXPROCS(prev)
-	seen := map[string]struct{}{}
+	seen := map[uint64]struct{}{} // configurations by 64-bit hash of their canonical key
 	k0, _ := m.FoldConfig(" ", md)
-	seen[k0] = struct{}{}
+	seen[fw.Hash(k0)] = struct{}{}
 	frontier := []string{""}
 	closed := true
 	depth := 0
@@ -112,8 +112,8 @@ func runFoldClosure(w *fw.W, syms []string, fl int, maxStates, maxDepth int) (cu
 					terminal++
 					continue
 				}
-				if _, ok := seen[o.key]; !ok {
-					seen[o.key] = struct{}{}
+				if _, ok := seen[fw.Hash(o.key)]; !ok {
+					seen[fw.Hash(o.key)] = struct{}{}
 					next = append(next, o.input)
 				}
 			}
@@ -157,11 +157,16 @@ func evalClosureReplay(w *fw.W, in, mode string) {
 
 func closurePhase() fw.Phase {
 	return fw.Phase{Name: "fold-closure", Serial: true, Share: 6,
-		Space: "breadth-first closure of the folder automaton over the 16-class core alphabet in as-is/ANSI, as-is/MySQL and single-quote/ANSI modes; every transition validated on the implementation; quick: 5 levels; thorough: to the fixpoint = all token-sequence lengths",
+		Space: "breadth-first closure of the folder automaton over the 16-class core alphabet in as-is/ANSI, as-is/MySQL and single-quote/ANSI modes (thorough, as-is/ANSI: 20 classes incl. IN, NOT, LIKE, backslash; about 5.2 M configurations); every transition validated on the implementation; quick: 5 levels; thorough: to the fixpoint = all token-sequence lengths",
 		Run: func(w *fw.W) {
 			anyCut := false
-			for _, fl := range []int{fNone | fAnsi, fNone | fMysql, fSingle | fAnsi} {
-				if runFoldClosure(w, alpha.S3core, fl, 6000000, w.Pick(5, 0)) {
+			for i, fl := range []int{fNone | fAnsi, fNone | fMysql, fSingle | fAnsi} {
+				syms := alpha.S3core
+				if w.Thorough() && i == 0 {
+					// thorough, as-is/ANSI: the core plus the tokens whose class a later rule rewrites (IN, NOT, LIKE, backslash)
+					syms = append(append([]string{}, alpha.S3core...), "in ", "not ", "\\ ", "like ")
+				}
+				if runFoldClosure(w, syms, fl, 9000000, w.Pick(5, 0)) {
 					anyCut = true
 				}
 			}
